@@ -93,6 +93,41 @@ func c07GenProg(rng *kit.RNG, maxLen int, real bool) []c07Op {
 			}
 		}
 	}
+	// Pause / resume of the stream between the operations (drawn after the
+	// program itself, so the programs of a seed are the earlier ones plus these
+	// insertions): in half of the programs a pause followed, directly or up to
+	// two operations later, by the resume that replaces the partition object;
+	// now and then a resume of a running partition (no-op) or a pause that is
+	// never resumed (the rest of the program works on the closed partition).
+	ins := func(at int, o c07Op) {
+		if at > len(prog) {
+			at = len(prog)
+		}
+		prog = append(prog, c07Op{})
+		copy(prog[at+1:], prog[at:])
+		prog[at] = o
+	}
+	for rounds := 0; rounds < 2; rounds++ {
+		if !rng.Chance(1, 2) {
+			break
+		}
+		a := rng.Intn(len(prog) + 1)
+		gap := 0
+		switch g := rng.Intn(20); {
+		case g >= 17:
+			gap = 2
+		case g >= 12:
+			gap = 1
+		}
+		ins(a, c07Op{Kind: "P"})
+		ins(a+1+gap, c07Op{Kind: "Q"})
+	}
+	if rng.Chance(1, 8) {
+		ins(rng.Intn(len(prog)+1), c07Op{Kind: "Q"})
+	}
+	if rng.Chance(1, 10) {
+		ins(rng.Intn(len(prog)+1), c07Op{Kind: "P"})
+	}
 	return prog
 }
 
@@ -135,7 +170,7 @@ func c07RunOnControllers(rep *kit.Report, tag string, w int, cases []c07Case, pr
 func TestVerifC07Seq(t *testing.T) {
 	rep := kit.NewReport("C07", "seq")
 	defer rep.Write()
-	rep.SetRule("seeded programs of 3..16 calls on a fresh partition with 3..5 phantom replicas: ReportLeader from in-sync followers / the leader / out-of-sync replicas / an unknown id, ShrinkISR of a follower / the leader / a non-member, ExpandISR of an out-of-sync / in-sync replica, each naming the current or a stale (leader, epoch); X = more than the timeout passes (the pending expiry timer is stopped and failover.OnExpired invoked, exactly what the timer does); L = metadataAPI.LostLeadership(). I1-I6 checked after every call and at every committed Raft entry; non-trivial = a leader change or ISR change was committed or a stale request was refused; distinct = (replicas, initial leader, program)")
+	rep.SetRule("seeded programs of 3..16 calls on a fresh partition with 3..5 phantom replicas: ReportLeader from in-sync followers / the leader / out-of-sync replicas / an unknown id, ShrinkISR of a follower / the leader / a non-member, ExpandISR of an out-of-sync / in-sync replica, each naming the current or a stale (leader, epoch); X = more than the timeout passes (the pending expiry timer is stopped and failover.OnExpired invoked, exactly what the timer does); L = metadataAPI.LostLeadership(); in half of the programs P = PauseStream and, directly or up to two calls later, Q = the RESUME_STREAM entry that replaces the partition object are inserted between the calls (plus now and then a resume of a running partition or a pause that is never resumed); the monitors' memory (epochs, leader per epoch, reports of the window) spans the replacement. I1-I6 checked after every call and at every committed Raft entry; non-trivial = a leader change or ISR change was committed or a stale request was refused; distinct = (replicas, initial leader, program)")
 	c07Assumptions(rep)
 	root := kit.NewRNG(kit.Mix(kit.Seed(), 0xC07))
 	n := kit.Scale(1500, 20000)
@@ -186,8 +221,8 @@ func TestVerifC07Enum(t *testing.T) {
 		}
 		return false
 	}
-	coreLen, extLen, core4Len := kit.Scale(4, 5), kit.Scale(3, 4), kit.Scale(3, 4)
-	rep.SetRule(fmt.Sprintf("small-scope enumeration, simulated expiry: ALL programs of length 1..%d over the core alphabet {R.f0 R.f1 R.L R.o0 S.fl E.o0 X} on 3 replicas, length 1..%d on 4 replicas, and ALL programs of length 1..%d over core+{%s} that use at least one of the added symbols (3 replicas); a program is pruned at the first symbol whose role does not exist in the state reached (it equals a shorter program); same per-call / per-entry oracle as the seeded programs; non-trivial = a leader or ISR change was committed or a stale request refused", coreLen, core4Len, extLen, extraNames))
+	coreLen, extLen, core4Len, pqLen := kit.Scale(4, 5), kit.Scale(3, 4), kit.Scale(3, 4), kit.Scale(4, 5)
+	rep.SetRule(fmt.Sprintf("small-scope enumeration, simulated expiry: ALL programs of length 1..%d over the core alphabet {R.f0 R.f1 R.L R.o0 S.fl E.o0 X} on 3 replicas, length 1..%d on 4 replicas, and ALL programs of length 1..%d over core+{%s} that use at least one of the added symbols (3 replicas), and ALL programs of length 1..%d that contain PQ (PauseStream followed by the RESUME_STREAM entry that replaces the partition object) over {R.f0 R.f1 S.fl E.o0 X PQ} on 3 replicas and over {R.f0 R.f1 S.fl X PQ} on 4 replicas; a program is pruned at the first symbol whose role does not exist in the state reached (it equals a shorter program); same per-call / per-entry oracle as the seeded programs; non-trivial = a leader or ISR change was committed or a stale request refused", coreLen, core4Len, extLen, extraNames, pqLen))
 	c07Assumptions(rep)
 	rep.SetExhaustive(true)
 	var cases []c07Case
@@ -206,6 +241,22 @@ func TestVerifC07Enum(t *testing.T) {
 		return false
 	}) {
 		cases = append(cases, c07Case{N: 3, Leader: 2, Prog: p})
+	}
+	// pause + resume (replacement of the partition object) between the operations
+	PQ := c07Op{Kind: "PQ"}
+	hasPQ := func(p []c07Op) bool {
+		for _, o := range p {
+			if o == PQ {
+				return true
+			}
+		}
+		return false
+	}
+	for _, p := range c07Enumerate([]c07Op{{Kind: "R", Who: "f0"}, {Kind: "R", Who: "f1"}, {Kind: "S", Who: "fl"}, {Kind: "E", Who: "o0"}, {Kind: "X"}, PQ}, pqLen, hasPQ) {
+		cases = append(cases, c07Case{N: 3, Leader: 1, Prog: p})
+	}
+	for _, p := range c07Enumerate([]c07Op{{Kind: "R", Who: "f0"}, {Kind: "R", Who: "f1"}, {Kind: "S", Who: "fl"}, {Kind: "X"}, PQ}, pqLen, hasPQ) {
+		cases = append(cases, c07Case{N: 4, Leader: 2, Prog: p})
 	}
 	for i := range cases {
 		cases[i].Label = fmt.Sprintf("enum#%d", i)
@@ -334,7 +385,7 @@ func TestVerifC07Concurrent(t *testing.T) {
 					for g := range progs {
 						grng := rng.Fork(uint64(ph*10 + g))
 						for _, o := range c07GenProg(grng, 5, false) {
-							if o.Kind == "X" || o.Kind == "L" || (o.Kind == "S" && o.Who == "L") {
+							if o.Kind == "X" || o.Kind == "L" || o.Kind == "P" || o.Kind == "Q" || (o.Kind == "S" && o.Who == "L") {
 								o = c07Op{Kind: "R", Who: []string{"f0", "f1", "f2", "fl"}[grng.Intn(4)]}
 							}
 							progs[g] = append(progs[g], o)
@@ -363,6 +414,10 @@ func TestVerifC07Concurrent(t *testing.T) {
 					case 1:
 						pt.exec(c07Op{Kind: "L"})
 						sig += "L | "
+					case 2:
+						// the partition object is replaced while the reports of the phase are pending
+						pt.exec(c07Op{Kind: "PQ"})
+						sig += "PQ | "
 					}
 				}
 				env.dropPart(pt)
